@@ -1,7 +1,7 @@
 (* GuardProofs.v — lemmas for C06. *)
 From Coq Require Import String.
 From Coq Require Import List Ascii Bool ZArith QArith Lia.
-Require Import Model.Text Model.ParamTypes Model.Num Gen.Params Model.Guard Spec.GuardSpec.
+Require Import Model.Text Model.ParamTypes Model.Num Gen.PGuards Model.Guard Spec.GuardSpec.
 Import ListNotations.
 
 (* how the source guard reaches Mixin.guards: conditions separated by 'and', chains by ',' *)
